@@ -494,7 +494,7 @@ def cases(tier):
                           mem_scenario(fn, mode, rd_wr, io), bounds=bounds, replay_kind=None, assumptions=ASSUME))
   for fp in (False, True):
     out.append(Case(PROP, QE + "energy_estimate", "six_layers" + ("_fp32acc" if fp else ""), energy_scenario(fp),
-                    replay_kind=None, assumptions=ASSUME + ["memory_read_energy / memory_write_energy / "
+                    replay_kind="c19_energy", assumptions=ASSUME + ["memory_read_energy / memory_write_energy / "
                                                             "parameter_read_energy replaced by their contracts (non-negative "
                                                             "value per call) inside energy_estimate",
                                                             "float('{0:.2f}'.format(x)) is x rounded to two decimals"]))
